@@ -69,6 +69,18 @@ CLAIMS = {
         "timer is pending and nothing is pending after stop(); Timer.cond_start/cond_stop/calc_output against their truth tables.",
    note="Trusted: asyncio call_later/TimerHandle contract (runs once, not before when, never after cancel): 'on time' and 'exactly "
         "once' are this contract plus the invariant; float durations as reals, +inf encoded as 10^300; A-C08."),
+ 'C06': dict(
+   text="AddonPersistence.event (proof instance for the MRO continuing with SBlock.event), save_persistent_state, "
+        "init_from_persistent_data, Circuit._check_persistent_data (two loops with invariants), FSM.get_state, FSM._restore_state and "
+        "FSM._set_timer are executed from the real AST: after every handled event of a persistent sync_state block the storage holds "
+        "exactly get_state() (or the entry is removed when the state is unavailable); a failed event writes nothing and disables "
+        "persistence once the simulation is stopping; restore happens iff the entry exists and is not older than 'expiration'; "
+        "unused keys are removed and 'edzed-*' kept; an FSM is restored without actions, its timer expiring at the same absolute time "
+        "(real arithmetic over the loop/unix clocks), an expired state is discarded.  The obligation 'the timer callback clears the "
+        "fired handle' found the rejected-timed-event defect (saved expiry in the past), fixed in /repo.",
+   note="Trusted: pyvc encoding, z3; SBlock.event (C11/C09), timer contracts (C04); the storage is a dict-like heap object; get_state() is "
+        "a function of the block state; clock reads of _get_timediff simultaneous. Unclaimed in this revision: the save sites inside the "
+        "coroutines run_forever/_init_sblocks_sync_2 ('nothing is written if start-up failed', stop timestamp)."),
  'C09': dict(
    text="Circuit.abort, SBlock.event (error classification), AddonAsync._task_monitor, ControlBlock._event_shutdown/_event_abort and "
         "Circuit.is_ready are executed from the real AST: abort keeps the first error and cancels the task only then; event() aborts "
